@@ -34,16 +34,15 @@ def reviewed : List (String × String) := [
   ("runner.Printer.Println: panic", "only when the writer fails (stdout closed): environment, not input"),
   ("runner.StepReadConfig.findFiles: exporter.MustExport", "argument is a string"),
   ("token.FactoryFunction.Create: exporter.MustExport", "argument is a string"),
-  ("token.FactoryString.Create: exporter.MustExport", "argument is a string"),
-  ("token.toExpr: index runes[len(runes)-1]", "theorem toExpr_guard"),
-  ("token.toExpr: slice runes[1 : len(runes)-1]", "theorem toExpr_guard")]
+  ("token.FactoryString.Create: exporter.MustExport", "argument is a string")]
 
 /-- the guards the inventory tool recognises in the typed syntax tree (each makes the construct safe by itself) -/
 def recognisedGuards : List String :=
-  ["constant index under a length check", "constant slice bound under a length check", "full slice",
+  ["constant index under a length check", "constant slice bound under a length check", "constant slice bounds under a length check",
+   "full slice", "index by a loop counter into a slice made with that length",
    "index by a range key into a slice made with that length", "index by a sort callback argument",
    "index by the counter of a loop bounded by len of the same slice", "index by the key of a range over the same slice",
-   "type assertion in comma-ok form"]
+   "index from the end under a length check", "type assertion in comma-ok form"]
 
 /-- **every panic-capable construct of the tool is guarded in a recognised way or is one of the reviewed ones** — the
 inventory is regenerated with go/types on every run; restructuring guarded code changes nothing, a new unguarded
